@@ -19,7 +19,7 @@
 From Coq Require Import List Bool Arith PeanoNat.
 Import ListNotations.
 
-Inductive err := ErrTask (i : nat) | ErrIter | ErrTimeout | ErrRuntime | ErrAttr.
+Inductive err := ErrTask (i : nat) | ErrIter | ErrTimeout | ErrRuntime | ErrAttr | ErrBackend.
 Inductive status := Pending | Done | Failed (e : err).
 Inductive pre_t := PreAll | PreN (n : nat).
 Inductive mode_t := Ordered | Unordered.
@@ -350,7 +350,8 @@ Inductive ev :=
 | ECbFinish (t : nat) (b : nat)
 | EPull
 | EClose
-| ETimeout.
+| ETimeout
+| ERefuse (b : nat).
 
 (* get_status registers TimeoutError() on a job that stayed pending for longer than `timeout` *)
 Definition do_timeout (s : st) (j : nat) : st :=
@@ -421,6 +422,26 @@ Definition step_raw (guard_cid : bool) (s : st) (e : ev) : st * option obs :=
     | Retrieving => (abandon (finalize s Finished true true), Some Stop)
     | Draining _ => (abandon (set_out s (jobs s) (jset s) [] false Finished), Some Stop)
     | _ => (s, Some Stop)
+    end
+  | ERefuse b =>
+    (* as EDispatch, but backend.submit raises for the batch (a broken executor refusing work): the exception leaves
+       dispatch_one_batch and _start, the handler of _get_outputs sets the flags, aborts, resets and re-raises in the
+       caller; the tracker of the refused batch was registered before submit() and stays behind.  When nothing is
+       handed to the backend -- nothing left to dispatch, or the input raised while it was sliced (an error tracker
+       is registered without any submit, and the abort flag is up) -- the event is an ordinary dispatch. *)
+    match phase s with
+    | StartFirst =>
+      let '(s1, r) := dispatch_one_batch s b false in
+      if r && negb (aborting s1) then (finalize s1 Finished true true, Some (Raised ErrBackend))
+      else
+        let s2 := set_flags s1 (if r then orig s1 else iterating s1) (orig s1) StartLoop in
+        (if aborting s2 then end_start s2 else s2, None)
+    | StartLoop =>
+      let '(s1, r) := dispatch_one_batch s b false in
+      if r && negb (aborting s1) then (finalize s1 Finished true true, Some (Raised ErrBackend))
+      else if r then (if aborting s1 then end_start s1 else s1, None)
+      else (end_start s1, None)
+    | _ => (s, None)
     end
   | ETimeout =>
     if want s then
